@@ -32,13 +32,19 @@ KINDS = ['list', 'list', 'dict', 'Value', 'Namespace', 'Maker', 'Maker', 'Memory
 
 def gen(rng, tier):
     nag = rng.choice([1, 1, 2])
+    two = rng.random() < 0.2  # a second ServerProcess: proxies of objects hosted by one server end up inside containers hosted by the other
     ops = [['create', rng.choice(KINDS)], ['create', rng.choice(['list', 'dict', 'Maker'])]]
+    if two:
+        ops[1].append(1)
+        ops.append(['create', rng.choice(['list', 'dict', 'Maker', 'Value']), 1])
     for _ in range(rng.choice([2, 4, 6, 9, 12])):
         r = rng.random()
         p = rng.randrange(nag + 1)
         a, b, c = rng.randrange(8), rng.randrange(8), rng.randrange(8)
         if r < 0.08:
             ops.append(['create', rng.choice(KINDS)])
+            if two and rng.random() < 0.6:
+                ops[-1].append(1)  # hosted by the second manager
         elif r < 0.18:
             ops.append(['copy', p, a])
         elif r < 0.26:
@@ -61,7 +67,7 @@ def gen(rng, tier):
             ops.append(['thread_use', p, a])
         else:
             ops.append(['agent_exit', 1 + rng.randrange(nag)])
-    sc = {'nagents': nag, 'ops': ops, 'final_drop': rng.random() < 0.7}
+    sc = {'nagents': nag, 'ops': ops, 'final_drop': rng.random() < 0.7, 'two_managers': two}
     cfg = swarm(rng, racy=0.0, line=0.05, strategies=('random', 'weighted', 'sticky', 'sticky'), max_time=2000.0, max_steps=3_000_000,
                 pipe_cap=65536)
     return {'scenario': sc, 'sim': cfg}
@@ -75,6 +81,8 @@ def shrink(sc):
         yield dict(sc, nagents=1)
     if sc.get('final_drop'):
         yield dict(sc, final_drop=False)
+    if sc.get('two_managers'):
+        yield dict(sc, two_managers=False, ops=[o[:2] if o[0] == 'create' else o for o in ops])
 
 
 def tags(sim, sc, obs):
@@ -153,7 +161,13 @@ def run(sim, sc):
         ctr[0] += 1
         return '%s%d' % (prefix, ctr[0])
 
-    with ServerProcess() as m:
+    import contextlib
+    with contextlib.ExitStack() as stack:
+        m = stack.enter_context(ServerProcess())
+        ms = [m]
+        if sc.get('two_managers'):
+            ms.append(stack.enter_context(ServerProcess()))
+            sim.count('two_managers')
         agents = [None] + [managers.Agent(i + 1) for i in range(nag)]
 
         def party_handles(p):
@@ -183,9 +197,17 @@ def run(sim, sc):
             for a in agents[1:]:
                 if a is not None and a.alive:
                     a.cmd('touch')
-            if mine:
-                managers._touch(next(iter(mine.values())))
-            got, types = managers.refcounts(m, settle=0.05)
+            seen_addr = set()
+            for pxy in list(mine.values()):
+                if pxy._token.address not in seen_addr:
+                    seen_addr.add(pxy._token.address)
+                    managers._touch(pxy)
+            pxy = None
+            got, types = {}, {}
+            for mm in ms:
+                g, t = managers.refcounts(mm, settle=0.05)
+                got.update(g)
+                types.update(t)
             model.collect()
             want = model.expected()
             if got != want:
@@ -214,12 +236,13 @@ def run(sim, sc):
             if kind == 'create':
                 name = fresh()
                 k = op[1]
+                mgr = ms[op[2] % len(ms)] if len(op) > 2 else m
                 if k == 'MemoryBlock':
-                    mine[name] = m.MemoryBlock(32)
+                    mine[name] = mgr.MemoryBlock(32)
                 elif k == 'Value':
-                    mine[name] = m.Value('i', 3)
+                    mine[name] = mgr.Value('i', 3)
                 else:
-                    mine[name] = getattr(m, k)()
+                    mine[name] = getattr(mgr, k)()
                 model.handles[(0, name)] = model.new(k, mine[name]._token.id)
                 done = True
             elif kind in ('copy', 'pickle', 'drop', 'thread_use'):
